@@ -156,6 +156,7 @@ def check(ctx):
     ctx.floor(R, 6)
     _a3(ctx)
     _a4(ctx)
+    _a5(ctx)
 
 
 def _a3(ctx):
@@ -231,11 +232,33 @@ def _a4(ctx):
     ctx.floor(R, 3)
 
 
+def _a5(ctx):
+    R = "C28-A5"
+    ctx.doc(R, "the two energy passes (Total columns, breakdown columns) see the same inputs: per-count scaling is applied on every iteration (not only when a component is first looked up), and the energy helpers never remove entries from the dicts they are given")
+    EN = "accelforge/model/_looptree/energy.py"
+    sc = ctx.func(EN, "_apply_actions_scale", R)
+    cfg = ctx.cfg(sc)
+    muls = [st for st in sc.stmts() if isinstance(st, ast.AugAssign) and isinstance(st.op, ast.Mult) and isinstance(st.target, ast.Attribute)]
+    ctx.require(len(muls) >= 2, R, f"scaling statements in _apply_actions_scale: {len(muls)}")
+    for st in muls:
+        conds = [norm(h.ast.test) for h, lab in cfg.control_conditions(cfg.node_of(st)) if h.kind == "if"]
+        ctx.check(not conds, R, sc, st, f"`{norm(st)}` is only executed under `{conds[0] if conds else ''}`: only the first action of a component is scaled, and the two passes group the actions differently, so the breakdown no longer adds up to the Total", "every count is scaled")
+    for q in ("compute_energy_from_actions", "_apply_actions_scale", "gather_actions"):
+        fi = ctx.func(EN, q, R)
+        params = set(fi.params())
+        muts = [c for c in fi.calls() if isinstance(c.func, ast.Attribute) and c.func.attr in ("pop", "popitem", "clear") and isinstance(c.func.value, ast.Name) and c.func.value.id in params]
+        muts += [d for d in fi.walk() if isinstance(d, ast.Delete) and any(isinstance(t, ast.Subscript) and isinstance(t.value, ast.Name) and t.value.id in params for t in d.targets)]
+        ctx.check(not muts, R, fi, muts[0] if muts else fi.node, f"`{norm(muts[0])[:70] if muts else ''}` removes an entry from a dict that belongs to the caller: the first (Total) pass drains it and the second (breakdown) pass computes with defaults, so the two disagree",
+                  f"{q}: argument dicts only read")
+    ctx.floor(R, 5)
+
+
 def check_a3_wrapper(ctx):
     _a3(ctx)
 
 
 VARIANTS = [
+    {"kind": "F", "name": "gating-factor-popped-from-the-callers-dict", "rule": "C28-A5", "edits": [("accelforge/model/_looptree/energy.py", "component_to_non_power_gated_porp.get(", "component_to_non_power_gated_porp.pop(")]},
     {"kind": "F", "name": "scale-read-only-on-cache-miss", "rule": "C28-A4", "edits": [("accelforge/model/_looptree/energy.py", "            components[key.level] = spec.arch.find(key.level)\n        scale = getattr(components[key.level], \"actions_scale\", 1)", "            components[key.level] = spec.arch.find(key.level)\n            scale = getattr(components[key.level], \"actions_scale\", 1)")]},
     {"kind": "F", "name": "latency-component-axis-sum", "rule": "C28-A1", "edits": [(MP, "                    new_result[einsum] = np.maximum(new_result[einsum], value)", "                    new_result[einsum] = new_result[einsum] + value")]},
     {"kind": "F", "name": "energy-max", "rule": "C28-A1", "edits": [(MP, """        new_result = defaultdict(float)
